@@ -885,6 +885,14 @@ fn class_from_debug(d: &str) -> u8 {
     }
 }
 
+/// Error::position() of the wrapped decode::Error from its Debug rendering (`pos: Some(N)` -> N + 1, `pos: None` or
+/// unreadable -> 0), in the same convention as the native records.
+fn pos_from_debug(d: &str) -> u64 {
+    let Some(i) = d.find("pos: Some(") else { return 0 };
+    let digits: String = d[i + 10..].chars().take_while(|c| c.is_ascii_digit()).collect();
+    digits.parse::<u64>().map(|n| n + 1).unwrap_or(0)
+}
+
 fn serde_rec<'a, T: serde::Deserialize<'a> + Dig>(b: &'a [u8]) -> Rec {
     let mut de = minicbor_serde::Deserializer::new(b);
     let r = T::deserialize(&mut de);
@@ -897,7 +905,10 @@ fn serde_rec<'a, T: serde::Deserialize<'a> + Dig>(b: &'a [u8]) -> Rec {
         }
         // the bridge's error type wraps minicbor's decode::Error without exposing its class predicates;
         // the class is observable through Debug (the wrapped error's variant name)
-        Err(e) => Rec { class: class_from_debug(&format!("{:?}", e)), pos, digest: 0 },
+        Err(e) => {
+            let dbg = format!("{:?}", e);
+            Rec { class: class_from_debug(&dbg), pos, digest: pos_from_debug(&dbg) }
+        }
     }
 }
 
